@@ -194,10 +194,10 @@ func runHandler(c HandlerCase) kit.Verdict {
 	doLog := func(i int) (io.ReadCloser, error) {
 		m, b := c.Msgs[i], bs[i]
 		if m.Resp {
-			err := stream.LogResponse(m.ID, b.res)
+			err := stream.LogResponse(m.id(), b.res)
 			return b.res.Body, err
 		}
-		err := stream.LogRequest(m.ID, b.req)
+		err := stream.LogRequest(m.id(), b.req)
 		return b.req.Body, err
 	}
 	for phase := 0; phase <= 1; phase++ {
@@ -334,7 +334,7 @@ var propHandler = &kit.Prop[HandlerCase]{
 					m.Of = -1
 				} else {
 					paired[m.Of] = true
-					m.ID = c.Msgs[m.Of].ID
+					m.ID, m.IDHex = c.Msgs[m.Of].ID, c.Msgs[m.Of].IDHex
 				}
 			}
 			if !m.Resp {
